@@ -382,20 +382,11 @@ where
                         }))));
                     }
                     if let Some((_, default)) = defaults.iter().flatten().find(|(name, _)| {
+                        // `a`, `"a"` and `["a"]` (or `1` and `"1"`) spell the same key
                         name.eq_ignore_span(&prop_name)
-                            || if let (
-                                PropName::Ident(IdentName { sym: a, .. }),
-                                PropName::Str(Str { value: b, .. }),
-                            )
-                            | (
-                                PropName::Str(Str { value: a, .. }),
-                                PropName::Ident(IdentName { sym: b, .. }),
-                            ) = (&**name, &prop_name)
-                            {
-                                a == b
-                            } else {
-                                false
-                            }
+                            || prop_name_text(name)
+                                .zip(prop_name_text(&prop_name))
+                                .is_some_and(|(a, b)| a == b)
                     }) {
                         props.push(PropOrSpread::Prop(Box::new(Prop::KeyValue(KeyValueProp {
                             key: PropName::Ident(quote_ident!("default")),
@@ -1315,6 +1306,16 @@ fn extract_prop_name(expr: Expr, computed: bool) -> PropName {
                 PropName::Ident(quote_ident!(""))
             }
         }
+    }
+}
+
+fn prop_name_text(prop_name: &PropName) -> Option<Cow<'_, str>> {
+    match prop_name {
+        PropName::Ident(ident) => Some(Cow::Borrowed(&*ident.sym)),
+        PropName::Str(str) => Some(Cow::Borrowed(&*str.value)),
+        PropName::Num(num) => Some(Cow::Owned(num.value.to_string())),
+        PropName::BigInt(bigint) => Some(Cow::Owned(bigint.value.to_string())),
+        PropName::Computed(..) => None,
     }
 }
 
